@@ -1300,12 +1300,11 @@ func vC18CaseGated(t *testing.T, r *rand.Rand, out *vC18Out) {
 		map[string]any{"w": w, "calls": desc, "m1": m1, "wild1": wild1, "file_present": present, "file": file}, anyOK, goFail, "")
 }
 
-// the background refresh (refreshRemote: one second after New it re-reads every file of
-// the directory into the live list) landing between an API call's mutation and its
+// the background refresh (refreshRemote: one second after New it parses the freshly
+// downloaded lists into the live list) landing between an API call's mutation and its
 // persist(). Forced, not raced: the driver holds saveMu, lets the real call mutate and
 // queue at persist(), THEN starts the real refreshRemote and waits for it, then opens
 // the gate. Scenarios run side by side because each contains the code's own 1 s timer.
-const vC18KeyRefresh = "blocklist-refresh-readds-removed"
 
 type vC18RefreshScn struct {
 	cfg      *config.Config
@@ -1316,6 +1315,7 @@ type vC18RefreshScn struct {
 	wl       []string
 	file0    string
 	present0 bool
+	download string // content of a freshly "downloaded" list placed in the directory before the refresh, "" for none
 	ret      int
 	m1, w1   []string
 	present1 bool
@@ -1350,6 +1350,18 @@ func vC18CaseRefresh(t *testing.T, r *rand.Rand, out *vC18Out, count int) {
 			sc.op = vC18Op{"remove", []string{"absent-" + vC18Name(r)}}
 		default:
 			sc.op = vC18RandOp(r, pool)
+		}
+		if r.Intn(3) == 0 {
+			// a remote list has just been fetched: hosts syntax, fresh names, now and then the
+			// very name the call removes (it then comes back, from the remote list, by design)
+			var sb strings.Builder
+			for j := 0; j < 1+r.Intn(3); j++ {
+				sb.WriteString("0.0.0.0 remote-" + vC18Name(r) + "\n")
+			}
+			if r.Intn(3) == 0 {
+				sb.WriteString(sc.keys[0] + " # also listed remotely\n")
+			}
+			sc.download = sb.String()
 		}
 		scns[i] = sc
 	}
@@ -1397,7 +1409,14 @@ func vC18CaseRefresh(t *testing.T, r *rand.Rand, out *vC18Out, count int) {
 					}
 				}
 			}
-			b.refreshRemote() // sleeps its second, then re-reads the directory
+			if sc.download != "" {
+				if err := os.WriteFile(filepath.Join(sc.cfg.BlockListDir, "remote.example-0a1b2c.1.tmp"), []byte(sc.download), 0o644); err != nil {
+					sc.err = err.Error()
+					b.saveMu.Unlock()
+					return
+				}
+			}
+			b.refreshRemote() // sleeps its second, then reads what was downloaded
 			b.saveMu.Unlock()
 			if sc.ret > 0 {
 				<-done
@@ -1418,11 +1437,16 @@ func vC18CaseRefresh(t *testing.T, r *rand.Rand, out *vC18Out, count int) {
 		if sc.ret > 0 {
 			k = "refresh-after-" + sc.op.Kind
 		}
-		out.emit(k, fmt.Sprintf("CaseRefresh %s %s %s %s (%s) %d%%N %s %s %s", vC18List(sc.m0), vC18List(sc.w0), vC18List(sc.wl),
-			vC18OptStr(sc.present0, sc.file0), sc.op.coq(), sc.ret, vC18List(sc.m1), vC18List(sc.w1), vC18OptStr(sc.present1, sc.file1)),
-			map[string]any{"memory_before": sc.m0, "wild_before": sc.w0, "whitelist": sc.wl, "file_before": sc.file0,
-				"call": []any{sc.op.Kind, sc.op.Keys, "returns", sc.ret}, "schedule": "mutation; refreshRemote re-reads the directory; persist",
-				"memory_after": sc.m1, "wild_after": sc.w1, "file_after": sc.file1}, sc.ret > 0, "", vC18KeyRefresh)
+		dl := []string{}
+		if sc.download != "" {
+			dl = []string{sc.download}
+			k += "-with-download"
+		}
+		out.emit(k, fmt.Sprintf("CaseRefresh %s %s %s %s %s (%s) %d%%N %s %s %s", vC18List(sc.m0), vC18List(sc.w0), vC18List(sc.wl),
+			vC18OptStr(sc.present0, sc.file0), vC18List(dl), sc.op.coq(), sc.ret, vC18List(sc.m1), vC18List(sc.w1), vC18OptStr(sc.present1, sc.file1)),
+			map[string]any{"memory_before": sc.m0, "wild_before": sc.w0, "whitelist": sc.wl, "file_before": sc.file0, "downloaded_list": sc.download,
+				"call": []any{sc.op.Kind, sc.op.Keys, "returns", sc.ret}, "schedule": "mutation; refreshRemote; persist",
+				"memory_after": sc.m1, "wild_after": sc.w1, "file_after": sc.file1}, sc.ret > 0, "", "")
 	}
 }
 
